@@ -573,6 +573,15 @@ fn c13_type<T: KS>(out: &mut Out, rng0: &mut Rng, tier: &Tier) {
         c13_container::<T, _>(out, &bs, &d, Some(e));
         c13_container::<T, _>(out, &bs, &DnaBytes(bs.clone()), Some(e));
         c13_container::<T, _>(out, &bs, &DnaSlice(&bs), Some(e));
+        // the bulk constructors (lib.rs kmers_from_bytes / kmers_from_ascii) on the same bases, every generated length -
+        // K-1, K and K+1 included (seeded change C13-m7: no k-mer for a sequence of exactly K bases)
+        {
+            let kb: Vec<V> = T::kmers_from_bytes(&bs).iter().map(|q| dna(&bases_of(q))).collect();
+            out.case("s.kmers", l(vec![nu(k), dna(&bs)]), l(kb));
+            let ascii: Vec<u8> = bs.iter().map(|b| b"ACGT"[*b as usize]).collect();
+            let ka: Vec<V> = T::kmers_from_ascii(&ascii).iter().map(|q| dna(&bases_of(q))).collect();
+            out.case("s.kmers", l(vec![nu(k), dna(&bs)]), l(ka));
+        }
         // model level: the block walk and iterators of DnaString
         if len >= k {
             let pos = rng.below(len - k + 1);
